@@ -26,7 +26,7 @@ static struct {
     unit U[MAXU];
     int n, next;
     ABT_mutex mtx;
-    ABT_mutex_memory mtx_mem; /* static: unnamed units may use it until ABT_finalize */
+    ABT_mutex_memory mtx_mem WL_ALIGNED_MEMORY; /* static: unnamed units may use it until ABT_finalize */
     long protected_counter;
     int ext_done[4];
     int stacked;
